@@ -18,6 +18,7 @@ def nonempty_bytes(key):
 NONTRIVIAL = {
     "c11": nonempty_bytes("name"),
     "fp": lambda i: isinstance(i, dict) and any(len(a) > 0 for a in i.get("args", [])),
+    "c15": lambda i: isinstance(i, dict) and len(i.get("name") or []) > 1,
 }
 
 FINDING_PREDICATES = {}
@@ -31,5 +32,12 @@ PROPS = {
         "rule": "exhaustive segment sequences over {a,b.go,.,..,..x,'',...,c} (len<=4 quick / <=6 thorough) x leading/trailing '/', plus seeded random byte strings; each name goes through ProtoFile() of all six generator artifact kinds; non-trivial = non-empty name; distinct by input bytes",
         "trusted": ["path/filepath on GOOS=linux is modelled at segment level (Model/FilePath.lean) and compared with the real functions by engine `fp` on every run"],
         "assumptions": ["GOOS=linux (ToSlash is the identity; '/' is the only separator)"],
+    },
+    "C15": {
+        "engines": [("c15", "main")],
+        "lean": ["PgsVerif.Props.C15"],
+        "rule": "corpus + exhaustive strings over {a,B,1,_,.,E-acute} up to length 5 (7 thorough), exhaustive separator-free words over {a,B,C,1,Omega} (with/without leading underscore), seeded random Unicode (multi-byte upper, title-case, non-Latin digits, invalid bytes); non-trivial = at least 2 runes; distinct by input",
+        "level_text": "Theorems for all rune sequences and all upper/digit classifications: C15_lossless (join of the parts with the separator split on = name), C15_camel_no_empty_part, C15_dot_segments / C15_underscore_segments / C15_camel_branch (which segmentation applies), C15_index_safe (parts[1] in range), C15_transform and C15_conversions_agree (every helper is the part-wise conversion joined by its separator; all conversions share one skeleton). The declarative camel-case word boundaries (Model.NameSplit.boundary) are checked by Phi on every implementation observation and compared with the scanner on every input; Split and the eight helpers are compared with the model on ~25k names per quick run.",
+        "level_note": "Trusted: Lean kernel; Go's unicode.IsUpper/IsTitle/IsDigit and strings.Title/ToUpper/ToLower enter as per-input tables computed by the harness (the theorems hold for every table); utf-8 decoding of the name by Go's range loop. The equality scanner = declarative boundary cut is validated by correspondence + Phi, not yet a theorem (C15_camel_segments pending).",
     },
 }
